@@ -199,7 +199,8 @@ def all_valid(xs):
 
 
 def separated(xs):
-    return forall_range(0, len(xs) - 1, lambda k: xs[k][1] + 1 < xs[k + 1][0])
+    """ascending, and between any two segments lies a number that belongs to neither"""
+    return forall_range(0, len(xs), lambda j: forall_range(j + 1, len(xs), lambda k: xs[j][1] + 1 < xs[k][0]))
 
 
 def normal_form(xs):
@@ -235,7 +236,7 @@ M.loop(P_RM + ':_merge_segments', 0,
        current[0] <= current[1]
        and (_i + 1 >= len(segments) or current[0] <= segments[_i + 1][0])
        and normal_form(ret_val)
-       and (len(ret_val) == 0 or ret_val[len(ret_val) - 1][1] + 1 < current[0])
+       and forall_range(0, len(ret_val), lambda k: ret_val[k][1] + 1 < current[0])
        and iff(in_some(ret_val, n) or seg_mem(current, n), in_some_before(segments, _i + 1, n))
        and implies(all_from_ge(segments, lo), all_from_ge(ret_val, lo) and current[0] >= lo),
        modifies=dict(ret_val=MListOf(PAIR), current=PAIR, next_='local'))
@@ -283,6 +284,8 @@ M.contract(P_RM + ':_merge_tail_from',
                'same-numbers': lambda initial, segments, non_merged__out__sorted, n, result:
                iff(result <= n or in_some(non_merged__out__sorted, n), initial <= n or in_some(segments, n)),
                'tail-only-grows': lambda initial, result: result <= initial,
+               'tail-is-the-given-one-or-the-start-of-a-segment': lambda initial, segments, result:
+               result == initial or exists_range(0, len(segments), lambda k: result == segments[k][0]),
                'the-rest-is-a-prefix-of-the-segments': lambda segments, non_merged__out__sorted:
                len(non_merged__out__sorted) <= len(segments)
                and forall_range(0, len(non_merged__out__sorted), lambda k:
@@ -300,6 +303,7 @@ def in_some_between(xs, start, end, n):
 M.loop(P_RM + ':_merge_tail_from', 0,
        invariant=lambda _i, initial, segments, non_merged__out__sorted, old, n:
        initial <= old
+       and (initial == old or exists_range(len(segments) - _i, len(segments), lambda k: initial == segments[k][0]))
        and len(non_merged__out__sorted) <= _i
        and forall_range(0, len(non_merged__out__sorted), lambda k:
                         non_merged__out__sorted[k] == segments[len(segments) - _i + k])
@@ -510,3 +514,62 @@ M.loop(P_RM + ':translate_neg_to_non_neg', 0,
        len(ret_val) == _i and none_neg(ret_val, len(ret_val))
        and forall_range(0, _i, lambda k: iff(S(ret_val[k], num_model_lines, n), S(ranges[k], num_model_lines, n))),
        modifies={'ret_val': MRANGES, 'range_': 'local'})
+
+# ------------------------------------------------------------------------------ merge
+# For every n >= 1: n is denoted by the result  <=>  n is denoted by the partitioning.  The result is in the
+# normal form that `_TransformMethodOfSegments.transform` relies on (`merged_nf`), and `is_empty` /
+# `is_everything()` are exact (witnesses: a denoted number when not empty, a missing one when not everything).
+
+PARTITIONING_RO = Inst(range_merge.Partitioning, head_to=ListOf(Int), segments=ListOf(PAIR), tail_from=ListOf(Int))
+
+
+def parts_nf(head, body, tail):
+    """head / body / tail as the segments transformer needs them: numbers >= 1, the first segment does not
+    start at line 1, body in normal form, at least one line number between head, body segments and tail"""
+    return (head is None or head >= 1) \
+        and normal_form(body) \
+        and forall_range(0, len(body), lambda k: body[k][0] >= 2
+                                                 and (head is None or head + 1 < body[k][0])
+                                                 and (tail is None or body[k][1] + 1 < tail)) \
+        and (tail is None or (tail >= 2 and (head is None or head + 1 < tail)))
+
+
+def is_everything_repr(m):
+    return (not m.is_empty) and m.head is None and m.tail is None and len(m.body) == 0
+
+
+def merged_nf(m):
+    return m.is_empty or is_everything_repr(m) or parts_nf(m.head, m.body, m.tail)
+
+
+def a_member(m):
+    """a line number that a non-empty result denotes"""
+    if is_everything_repr(m) or m.head is not None:
+        return 1
+    if len(m.body) > 0:
+        return m.body[0][0]
+    return m.tail
+
+
+def a_non_member(m):
+    """a line number that a result that is not 'everything' does not denote"""
+    return 1 if m.head is None else m.head + 1
+
+
+M.contract(P_RM + ':merge',
+           params=dict(partitioning=PARTITIONING_RO), returns=MERGED,
+           # lo: instantiates the ghost of _merge_segments' lower-bound clause with the first line number
+           ghosts=dict(n=Int, lo=Const(1)),
+           locals=dict(non_merged_segments_output=MListOf(PAIR)),
+           # established by the partitioner (every-stored-number-is-a-line-number), starting from Partitioning([], [], [])
+           requires=lambda partitioning: wf_part(partitioning),
+           ensures={
+               'denotes-exactly-the-line-numbers-of-the-partitioning': lambda partitioning, n, result:
+               implies(n >= 1, iff(merged_mem(result, n), part_mem(partitioning, n))),
+               'normal-form': lambda result: merged_nf(result),
+               'is_empty-is-exact': lambda result:
+               result.is_empty or (a_member(result) >= 1 and merged_mem(result, a_member(result))),
+               'is_everything-is-exact': lambda result:
+               result.is_empty or result.is_everything()
+               or (a_non_member(result) >= 1 and not merged_mem(result, a_non_member(result))),
+           }, raises_only=())
